@@ -200,14 +200,26 @@ def run(ctx):
         okp = all(dominated_by_blocks(dr, r, [stores[0][0]], start=zero_e[0][1]) for r in rets if r in dr.reachable(zero_e[0][1]))
         ctx.ob("R01.4", "eof-retires-on-every-path", okp, dr.loc(stores[0][0]), "no path from the EOF edge to return may skip the retirement")
     takes = [(bb, t) for bb, t in ri.calls() if M.callee_str(t["f"]) == "std::option::Option::<T>::take" and M.noref(T.operand(t["args"][0])) == ("field", E.selfp, "stdin")]
-    def is_done_cmp(c):
-        if not (c[0] == "bin" and c[1] == "Eq"):
-            return False
-        a, b = M.noref(c[2]), M.noref(c[3])
+    def done_atom(c):
+        """+1: the input is exhausted (cursor == / >= length, or the rest of the input is empty); -1: its negation"""
         pos = ("field", E.selfp, "input_pos")
         ln = lambda x: x[0] == "call" and x[1] == "std::vec::Vec::<T, A>::len" and M.noref(x[2][0]) == ("field", E.selfp, "input_data")
-        return (a == pos and ln(b)) or (b == pos and ln(a))
-    done_e = bool_edges(ri, T, is_done_cmp, True)
+        if c[0] == "bin" and c[1] in ("Eq", "Ne", "Ge", "Lt"):
+            a, b = M.noref(c[2]), M.noref(c[3])
+            if a == pos and ln(b):
+                return 1 if c[1] in ("Eq", "Ge") else -1
+            if b == pos and ln(a) and c[1] in ("Eq", "Ne"):
+                return 1 if c[1] == "Eq" else -1
+        if c[0] == "call" and c[1] in ("core::slice::<impl [T]>::is_empty",) and c[2]:
+            x = M.noref(c[2][0])
+            if x[0] == "call" and "index" in x[1].lower() and M.noref(x[2][0]) == ("field", E.selfp, "input_data") and x[2][1][0] == "agg" and x[2][1][1][1] == "std::ops::RangeFrom" \
+                    and M.noref(x[2][1][2][0]) == pos:
+                return 1
+        return 0
+    done_e, _ = cond_edges(ri, T, done_atom)
+    # only tests made after the cursor update of the same iteration count
+    _st = stores_to_field(ri, "input_pos", "communicate::raw::RawCommunicator")
+    done_e = [e_ for e_ in done_e if _st and dominated_by_blocks(ri, e_[0], [x_[0] for x_ in _st], start=E.mp_call[0] if E.mp_call else 0)]
     ctx.ob("R01.4", "stdin-closed-when-input-exhausted", len(takes) == 1 and dominated_by_edges(ri, takes[0][0], done_e, start=E.mp_call[0]), ri.loc(takes[0][0] if takes else 0),
            "self.stdin must be taken (closed) exactly under `input_pos == input_data.len()`, so that filters see end-of-file")
     if takes and done_e:
@@ -227,16 +239,19 @@ def run(ctx):
     for nm, src in (("stdin", None), ("stdout", None), ("stderr", None)):
         pass
     def all_none_edge(b, s):
-        # target dominated by the None edges of the three components of (self.stdin.as_ref(), stdout_ref, stderr_ref)
-        comps = []
-        for bb in E.loop:
-            r = M.switch_operand_def(ri, bb)
-            if r is not None and r["k"] == "discr":
-                pt = M.noref(M.strip(T.place(r["p"])))
-                if pt[0] == "field" and pt[1] == E.selfp and pt[2] in ("stdin", "stdout", "stderr"):
-                    t = ri.blocks[bb]["term"]
-                    comps.append((pt[2], (bb, M.switch_target(t, 0))))
-        names = {n for n, _ in comps if dominated_by_edges(ri, s, [e for n2, e in comps if n2 == n], start=min(E.loop))}
+        # target dominated by the "is None" edges of all three streams (self.stdin, stdout_ref, stderr_ref), whether tested
+        # through a tuple match, discriminants or is_none()
+        def stream_of(t):
+            t = M.noref(M.strip(t))
+            if t[0] == "field" and t[1] == E.selfp and t[2] in ("stdin", "stdout", "stderr"):
+                return t[2]
+            return None
+        names = set()
+        for nm in ("stdin", "stdout", "stderr"):
+            e = option_none_edges(ri, T, lambda t, nm=nm: stream_of(t) == nm)
+            e = [x for x in e if x[0] in E.loop]
+            if dominated_by_edges(ri, s, e, start=min(E.loop)):
+                names.add(nm)
         return names == {"stdin", "stdout", "stderr"}
     try_l = M.try_branch_locals(ri)
     seen_kind = {}
